@@ -5,6 +5,7 @@ use crate::bases::*;
 use crate::common::{DirectoryPackHeader, PackHeader, PackKind};
 use crate::verif_common::*;
 use std::sync::RwLock;
+use crate::common::Pack;
 
 // @h c04_range_directory | <DirectoryPack as Pack>::check; Reader::{parse_block_in,create_stream}; CheckInfo::{parse,check}; ByteStream::read; PackHeader::check_info_size | the body bytes, check_info_pos in {8, 20} (case split), one optional single byte alteration of the body or of the stored digest | the hash is fed exactly bytes [0, check_info_pos); a pristine pack verifies; an altered one does not | body <= 20 bytes; pack state built by struct literal; O-crc accepts, O-hash stand-in digest
 
@@ -26,3 +27,4 @@ hharness! {
         if kani::any() { check_range(8, mk) } else { check_range(20, mk) }
     }
 }
+
